@@ -59,7 +59,7 @@ def cases(tier, seed):
                 names[0] = "heat release"
         bf = rng.choice([2, 4])
         g = dict(seed=rng.randrange(10 ** 9), ndims=nd, nlevels=1 + i % 3, bf=bf, names=names,
-                 base_blocks=(1, 2) if bf == 4 else (2, 3), payload=rng.choice(["random", "special", "random"]),
+                 base_blocks=(1, 2) if bf == 4 else (2, 3), payload=rng.choice(["random", "special", "random", "extreme"]),      # extreme: extrema with three-digit exponents
                  time=[0.0, -2.5, 1e300, 3.25e-7, 7.0, 123456.789, float("inf"), float("-inf"), float("nan"), -0.0][(i * 7 + rng.randrange(2)) % 10])
         # every fourth case: extrema on a decimal tie at the third significant digit (2.665 -> 2.67, -1.145 -> -1.15)
         cs.append({"gen": g, "sel_seed": seed * 73 + i, "subprocess": i < 2, "ties": i % 4 == 2})
